@@ -279,6 +279,66 @@ let macro_main file =
       | MOk ts -> List.iter (fun t -> Printf.printf "%d %s\n" (if t.m_sp then 1 else 0) (hex_of_bytes t.m_txt)) ts
       | MErr -> print_endline "ERR" | MFuel -> print_endline "FUEL" | MUnsup -> print_endline "UNSUP"))
 
+(* sdisc: stdin lines: a statement or expression in prefix form (C20)
+     e ::= N c | V c | B c e e | C c e e | G c e | L c e | K f t e | X c e | A c e e | Q c0 c e e e | D c1 c2 e e | O c1 c2 e e | M c1 e e
+         | F ret pad n (c st e)*        c ::= I | F | X     st, pad ::= 0 | 1
+     s ::= SE c e | SI c0 e s s | SF s c0 e ci e s | SD s c0 e | SB n s* | SR c e | SN
+   stdout: "<wt> <need> <final d> <final x | FAIL> | <op letters>" *)
+let sdisc_main () =
+  let cls = function "I" -> CI | "F" -> CF | "X" -> CX | s -> failwith ("class " ^ s) in
+  let rec pe toks = match toks with
+    | "N" :: c :: r -> (XNum (cls c), r) | "V" :: c :: r -> (XVar (cls c), r)
+    | "B" :: c :: r -> let (a, r) = pe r in let (b, r) = pe r in (XBin (cls c, a, b), r)
+    | "C" :: c :: r -> let (a, r) = pe r in let (b, r) = pe r in (XCmp (cls c, a, b), r)
+    | "G" :: c :: r -> let (a, r) = pe r in (XNeg (cls c, a), r)
+    | "L" :: c :: r -> let (a, r) = pe r in (XLNot (cls c, a), r)
+    | "K" :: f :: t :: r -> let (a, r) = pe r in (XCast (cls f, cls t, a), r)
+    | "X" :: c :: r -> let (a, r) = pe r in (XToVoid (cls c, a), r)
+    | "A" :: c :: r -> let (a, r) = pe r in let (v, r) = pe r in (XAssign (cls c, a, v), r)
+    | "Q" :: c0 :: c :: r -> let (x, r) = pe r in let (a, r) = pe r in let (b, r) = pe r in (XCond (cls c0, cls c, x, a, b), r)
+    | "D" :: c1 :: c2 :: r -> let (a, r) = pe r in let (b, r) = pe r in (XLogAnd (cls c1, cls c2, a, b), r)
+    | "O" :: c1 :: c2 :: r -> let (a, r) = pe r in let (b, r) = pe r in (XLogOr (cls c1, cls c2, a, b), r)
+    | "M" :: c1 :: r -> let (a, r) = pe r in let (b, r) = pe r in (XComma (cls c1, a, b), r)
+    | "F" :: ret :: pad :: n :: r ->
+      let rec args k r = if k = 0 then ([], r) else
+        (match r with c :: st :: r -> let (a, r) = pe r in let (l, r) = args (k - 1) r in (((cls c, st = "1"), a) :: l, r) | _ -> failwith "args") in
+      let (l, r) = args (int_of_string n) r in (XCall (cls ret, pad = "1", l), r)
+    | t :: _ -> failwith ("expr " ^ t) | [] -> failwith "eof" in
+  let rec ps toks = match toks with
+    | "SE" :: c :: r -> let (e, r) = pe r in (SExpr (cls c, e), r)
+    | "SR" :: c :: r -> let (e, r) = pe r in (SReturn (cls c, e), r)
+    | "SI" :: c0 :: r -> let (e, r) = pe r in let (a, r) = ps r in let (b, r) = ps r in (SIf (cls c0, e, a, b), r)
+    | "SF" :: r -> let (i, r) = ps r in (match r with c0 :: r -> let (e, r) = pe r in (match r with ci :: r -> let (inc, r) = pe r in let (b, r) = ps r in (SFor (i, cls c0, e, cls ci, inc, b), r) | _ -> failwith "for") | _ -> failwith "for")
+    | "SD" :: r -> let (b, r) = ps r in (match r with c0 :: r -> let (e, r) = pe r in (SDo (b, cls c0, e), r) | _ -> failwith "do")
+    | "SB" :: n :: r -> let rec go k r = if k = 0 then ([], r) else let (s, r) = ps r in let (l, r) = go (k - 1) r in (s :: l, r) in
+      let (l, r) = go (int_of_string n) r in (SBlock l, r)
+    | "SN" :: r -> (SNop, r)
+    | t :: _ -> failwith ("stmt " ^ t) | [] -> failwith "eof" in
+  let rec z_int z = match z with Z0 -> 0 | Zpos p -> pos_int p | Zneg p -> - (pos_int p)
+  and pos_int p = match p with XH -> 1 | XO q -> 2 * pos_int q | XI q -> 2 * pos_int q + 1 in
+  let b = Buffer.create 256 in
+  let rec flat c = match c with
+    | KI o -> (match o with OPush -> Buffer.add_char b 'U' | OPop -> Buffer.add_char b 'O' | OPushF -> Buffer.add_char b 'u' | OPopF -> Buffer.add_char b 'o'
+              | OSubRsp n -> Buffer.add_string b (Printf.sprintf "S%d" (z_int n)) | OAddRsp n -> Buffer.add_string b (Printf.sprintf "A%d" (z_int n))
+              | OFPush -> Buffer.add_char b 'F' | OFPop -> Buffer.add_char b 'f' | OOther -> ())
+    | KSeq (x, y) -> flat x; flat y | KSkip -> () | KBr (x, y) -> flat x; flat y | KLoop x -> flat x | KRet x -> flat x in
+  (try while true do
+    let line = input_line stdin in
+    let toks = List.filter (fun x -> x <> "") (String.split_on_char ' ' (String.trim line)) in
+    Buffer.clear b;
+    (match toks with
+     | t :: _ when String.length t = 2 && t.[0] = 'S' ->
+       let (s, _) = ps toks in
+       let code = gs s in flat code;
+       let fin = (match srun code (Z0, Z0) with Some (d, x) -> Printf.sprintf "%d %d" (z_int d) (z_int x) | None -> "FAIL FAIL") in
+       Printf.printf "%d %d %s | %s\n" (if wts s then 1 else 0) (z_int (sneed s)) fin (Buffer.contents b)
+     | _ ->
+       let (e, _) = pe toks in
+       let code = gen e in flat code;
+       let fin = (match srun code (Z0, Z0) with Some (d, x) -> Printf.sprintf "%d %d" (z_int d) (z_int x) | None -> "FAIL FAIL") in
+       Printf.printf "%d %d %s | %s\n" (if wt e then 1 else 0) (z_int (need e)) fin (Buffer.contents b))
+  done with End_of_file -> ())
+
 (* cond: stdin lines of items I1 I0 E1 E0 L N T<k>; prints the selected payloads or ERR (C10) *)
 let cond_main () =
   (try while true do
@@ -370,6 +430,7 @@ let () =
   | [_; "lines"; f] -> lines_main f
   | [_; "macro"; f] -> macro_main f
   | [_; "cond"] -> cond_main ()
+  | [_; "sdisc"] -> sdisc_main ()
   | [_; "inc"] -> inc_main ()
   | [_; "fusing"] -> fusing_main ()
   | [_; "layout"] -> layout_main ()
